@@ -199,7 +199,7 @@ def body_cases(ctx):
             for rep in range(2 if not big else 10):
                 cs.append((0, 0, 5, [rand_geom(rng, ty, shell, plain=True)]))
                 cs.append((rng.randrange(2), 0, 5, [rand_geom(rng, ty, shell, plain=True), rand_geom(rng, GT["box"], False, plain=True)]))
-    for rep in range(100 if not big else 1500):
+    for rep in range(70 if not big else 1500):
         n = rng.choice([1, 2, 2, 3, 3, 4, 6])
         geoms = [rand_geom(rng) for _ in range(n)]
         glo, ghi = rng.choice([(0, 5), (0, 5), (0, 5), (0, 1), (1, 3), (2, 2)])
@@ -413,7 +413,7 @@ def run(ctx):
         nontriv.add(line)
     # ---- direct ties: mjuu_globalinertia, mjuu_offcenter (evaluated in the same Coq run)
     dcases = []
-    for rep in range(60 if not big else 600):
+    for rep in range(40 if not big else 600):
         l = [10 ** rng.uniform(-3, 2) for _ in range(3)]
         dcases.append(("G", l + rand_quat(rng)))
         dcases.append(("O", [10 ** rng.uniform(-3, 3)] + [rng.gauss(0, 1) for _ in range(3)]))
@@ -454,7 +454,7 @@ def run(ctx):
 
     # ------------------------------------------------------------ eig3 contract observed on mjuu_fullInertia
     fcases = []
-    for rep in range(80 if not big else 800):
+    for rep in range(50 if not big else 800):
         lam = sorted([10 ** rng.uniform(-2, 2) for _ in range(3)], reverse=True)
         lam[2] = max(lam[2], (lam[0] - lam[1]) * 1.01)
         r = rng.random()
